@@ -591,6 +591,11 @@ def calltree_program():
     F = []
     for n in names:
         F.append(dispatcher(n, n.lower(), names + ["M"]))
+    # E: a dispatcher that survives whatever its callees raise (an injected subscriber failure
+    # included) and carries on calling; nobody calls it, it is an entry point and outermost level
+    e = dispatcher("E", "e", names + ["M"])
+    e["body"][2] = ["while", [["try", [e["body"][2][1][0]], [["Exception", None, [["bind", "x", V]]]], [], []]]]
+    F.append(e)
     # M: an intermediate nobody names in a selector (stays un-instrumented)
     F.append(
         fn(
@@ -687,7 +692,12 @@ def recv_program():
         return [["bind", local, V], use(local, "p"), ["ret", var(local)]]
 
     classes = [
-        {"name": "K", "methods": [fn("meth", ["self", "p"], body("x"))]},
+        {"name": "K", "methods": [
+            fn("meth", ["self", "p"], body("x")),
+            # a method that calls a plain function (call paths through a receiver: k1.run > helper > v)
+            fn("run", ["self", "p"], [["bind", "x", V], ["bind", "r", ["call", "helper", [var("p")]]],
+                                      use("x", "r"), ["ret", var("x")]]),
+        ]},
         {"name": "Sub", "base": "K", "init": False, "methods": [fn("other", ["self", "p"], body("y"))]},
         {"name": "E", "eq": "eq", "methods": [fn("meth", ["this", "p"], body("x"))]},
         {"name": "N", "eq": "nohash", "methods": [fn("meth", ["self", "p"], body("x"))]},
@@ -702,6 +712,7 @@ def recv_program():
     ]
     F = [
         fn("meth", ["p"], body("x")),  # plain namesake of the methods
+        fn("helper", ["p"], [["bind", "v", V], use("v", "p"), ["ret", var("v")]]),
         fn("other", ["p"], body("y")),
     ]
     inst = [
